@@ -54,6 +54,9 @@ pub struct RunResult {
     /// Digest of every serialized object the run produced (determinism proof).
     #[serde(default)]
     pub bytes_digest: u64,
+    /// For each slot, the index of the event that created it.
+    #[serde(default)]
+    pub slot_origin: Vec<usize>,
 }
 
 #[derive(Clone, Debug, Serialize, Deserialize)]
@@ -341,6 +344,7 @@ impl Runner {
             outcomes: w.outcomes.clone(),
             known_hits: self.known_hits.iter().cloned().collect(),
             bytes_digest: bd,
+            slot_origin: w.slots.iter().map(|s| s.born_event).collect(),
         };
         (res, self.trace)
     }
@@ -736,4 +740,38 @@ pub fn sweep_hostile(w: &mut World, target: &HostileTarget, parser: &Parser, str
     *w.stats.checks.entry("enumerated-hostile-rewrites").or_default() += n;
     w.stats.probe(if stride == 1 { "sweep-hostile-exhaustive" } else { "sweep-hostile-strided" });
     w.outcomes.push(format!("sweep-hostile:{}", if w.failed.len() > n_before { "violation" } else { "clean" }));
+}
+
+/// Rewrites every slot reference of an event through `f`; returns false when a referenced slot
+/// has no image (the event must then be dropped).
+pub fn remap_slots(ev: &mut Ev, f: &dyn Fn(usize) -> Option<usize>) -> bool {
+    fn m(x: &mut usize, f: &dyn Fn(usize) -> Option<usize>) -> bool {
+        match f(*x) {
+            Some(y) => {
+                *x = y;
+                true
+            }
+            None => false,
+        }
+    }
+    match ev {
+        Ev::Read { slot, .. } | Ev::Recaps { slot, .. } | Ev::SweepSlot { slot, .. } => m(slot, f),
+        Ev::Reload { what: ReloadTarget::Slot(i) } | Ev::Reload { what: ReloadTarget::Cleartext(i) } => m(i, f),
+        Ev::Hostile { target: HostileTarget::Slot(i), .. } | Ev::SweepHostile { target: HostileTarget::Slot(i), .. } => m(i, f),
+        Ev::TamperSlot { slot, op } => {
+            let ok = m(slot, f);
+            ok && match op {
+                ByteOp::Torn { other_slot, .. } | ByteOp::Misdirect { other_slot } => m(other_slot, f),
+                _ => true,
+            }
+        }
+        Ev::TamperEnc { slot, op } => {
+            let ok = m(slot, f);
+            ok && match op {
+                EncOp::TagFrom { other_slot } | EncOp::EncFrom { other_slot, .. } | EncOp::TrapsFrom { other_slot } | EncOp::MetaFrom { other_slot } => m(other_slot, f),
+                _ => true,
+            }
+        }
+        _ => true,
+    }
 }
